@@ -15,7 +15,7 @@ TRUSTED = [
 
 
 def run(rep):
-    st = verif.proof_stage(rep, "C16", needs_translators=["gentables"])
+    st = verif.proof_stage(rep, "C16", needs_translators=["gentables", "sharedgen"])
     broken = list(st["broken"])
     broken += verif.build_topic(go_pkgs=("cancel",))
     found = False
